@@ -605,6 +605,16 @@ def run(chk):
                         "equality with an abstract sequence after arbitrary operation histories is NOT decided"]
     chk.not_decided += ["sequence equivalence over all operation histories", "behaviour of iterators used past the end"]
     run_rules(chk)
+    from . import macrohyg
+    chk.rule("N8", "the list API as a caller writes it evaluates each argument once (list_push(&a, list_extract(&b)) moves ONE node)")
+    macrohyg.check_single_evaluation(chk, "N8.single-evaluation", "librfn/list.h", [
+        ("list_insert(l, next())", "void w_ins(list_t *l, list_node_t *(*next)(void)) { list_insert(l, next()); }"),
+        ("list_push(l, next())", "void w_push(list_t *l, list_node_t *(*next)(void)) { list_push(l, next()); }"),
+        ("list_insert_sorted(l, next(), cmp)", "void w_sorted(list_t *l, list_node_t *(*next)(void), list_node_compare_t *c) { list_insert_sorted(l, next(), c); }"),
+        ("list_remove(l, next())", "bool w_rm(list_t *l, list_node_t *(*next)(void)) { return list_remove(l, next()); }"),
+        ("list_extract(next())", "list_node_t *w_ext(list_t *(*next)(void)) { return list_extract(next()); }"),
+        ("list_iterator_insert(it, next())", "void w_iti(list_iterator_t *it, list_node_t *(*next)(void)) { list_iterator_insert(it, next()); }"),
+    ])
     chk.rule_prefix = "N4."
     chk.rule_filter = lambda r: r.startswith("T4")
     C02.check_t4(chk, build.load_unit(UNIT))
